@@ -1,4 +1,7 @@
-use super::{CompleteIo, IoCommand, IoKind, IoKindResult, IoPacket, PagePool, PAGE_SIZE};
+use super::{
+    short_io_error, CompleteIo, IoCommand, IoKind, IoKindResult, IoPacket, PagePool,
+    MAX_IO_ATTEMPTS, PAGE_SIZE,
+};
 use crossbeam_channel::{Receiver, Sender, TryRecvError};
 use io_uring::{cqueue, opcode, squeue, types, IoUring};
 use slab::Slab;
@@ -38,6 +41,8 @@ pub fn check_iou_permissions() -> super::IoUringPermission {
 struct PendingIo {
     command: IoCommand,
     completion_sender: Sender<CompleteIo>,
+    // how many times this command has been issued before.
+    attempts: usize,
 }
 
 pub fn start_io_worker(
@@ -77,7 +82,7 @@ fn run_worker(page_pool: PagePool, command_rx: Receiver<IoPacket>) {
         .expect("Error building io_uring");
 
     let (submitter, mut submit_queue, mut complete_queue) = ring.split();
-    let mut retries = VecDeque::<IoPacket>::new();
+    let mut retries = VecDeque::<(IoPacket, usize)>::new();
 
     // Indicates whether the worker detected that it should shutdown.
     let mut shutdown = false;
@@ -93,6 +98,7 @@ fn run_worker(page_pool: PagePool, command_rx: Receiver<IoPacket>) {
                 let PendingIo {
                     command,
                     completion_sender,
+                    attempts,
                 } = pending.remove(completion_event.user_data() as usize);
 
                 // io_uring never uses errno to pass back error information.
@@ -105,13 +111,18 @@ fn run_worker(page_pool: PagePool, command_rx: Receiver<IoPacket>) {
                 let result = match command.kind.get_result(syscall_result as isize) {
                     IoKindResult::Ok => Ok(()),
                     IoKindResult::Err => Err(std::io::Error::from_raw_os_error(io_uring_res.abs())),
-                    IoKindResult::Retry => {
-                        retries.push_back(IoPacket {
-                            command,
-                            completion_sender,
-                        });
+                    IoKindResult::Retry if attempts + 1 < MAX_IO_ATTEMPTS => {
+                        retries.push_back((
+                            IoPacket {
+                                command,
+                                completion_sender,
+                            },
+                            attempts + 1,
+                        ));
                         continue;
                     }
+                    // never making progress: report it instead of reissuing it forever.
+                    IoKindResult::Retry => Err(short_io_error()),
                 };
 
                 #[cfg(nomt_verif)]
@@ -148,14 +159,14 @@ fn run_worker(page_pool: PagePool, command_rx: Receiver<IoPacket>) {
 
         submit_queue.sync();
         while pending.len() < MAX_IN_FLIGHT && !submit_queue.is_full() {
-            let next_io = if !retries.is_empty() {
+            let (next_io, attempts) = if !retries.is_empty() {
                 // re-apply partially failed reads and writes
                 // unwrap: known not empty
                 retries.pop_front().unwrap()
             } else if pending.is_empty() {
                 // block on new I/O if nothing in-flight.
                 match command_rx.recv() {
-                    Ok(command) => command,
+                    Ok(command) => (command, 0),
                     Err(_) => {
                         shutdown = true;
                         break;
@@ -163,7 +174,7 @@ fn run_worker(page_pool: PagePool, command_rx: Receiver<IoPacket>) {
                 }
             } else {
                 match command_rx.try_recv() {
-                    Ok(command) => command,
+                    Ok(command) => (command, 0),
                     Err(TryRecvError::Empty) => break,
                     Err(TryRecvError::Disconnected) => {
                         shutdown = true;
@@ -176,6 +187,7 @@ fn run_worker(page_pool: PagePool, command_rx: Receiver<IoPacket>) {
             let pending_index = pending.insert(PendingIo {
                 command: next_io.command,
                 completion_sender: next_io.completion_sender,
+                attempts,
             });
 
             let entry = submission_entry(&mut pending.get_mut(pending_index).unwrap().command)
